@@ -41,6 +41,33 @@ def run_real(ops, budget_s=10.0):
         signal.signal(signal.SIGALRM, old)
 
 
+_T1_SEEN = {}
+
+
+def t1(drv, text):
+    """None, or how the real compiler's output for `text` differs from the model compiler's"""
+    if text in _T1_SEEN:
+        return _T1_SEEN[text]
+    from . import comp as CP, pyast
+    out = None
+    real = CP.real_compile(text)
+    try:
+        model = CP.model_compile(drv, text)
+    except common.ModelTimeout:
+        return None
+    if real[0] == 'ok' and model[0] == 'ok':
+        if sx(pyast.module(real[1])) != sx(model[2]):
+            out = 'T1 emitted Python differs from the model of the compiler'
+    elif real[0] != 'ok' and model[0] == 'ok' and not model[1]:
+        out = 'T1 real compiler rejects what the model accepts'
+    elif real[0] == 'ok' and model[0] != 'ok':
+        out = 'T1 real compiler accepts what the model rejects'
+    if len(_T1_SEEN) > 2000:
+        _T1_SEEN.clear()
+    _T1_SEEN[text] = out
+    return out
+
+
 def three_way(rep, drv, ops, label, fuel=4000, skip_ref_ops=()):
     """Runs one scenario. Returns 'ok', 'property' (real disagrees with the reference: a
     property violation, already reported), 'model' (real agrees with the reference on every
@@ -74,6 +101,13 @@ def three_way(rep, drv, ops, label, fuel=4000, skip_ref_ops=()):
     ref = ref[1:]
     comp = comp[1:]
     verdict = 'ok'
+    # tie T1 on every program of the history: the text the real compiler emits is the model's
+    for text in texts:
+        tie = t1(drv, text)
+        if tie:
+            rep.disagreements_checked += 1
+            rep.broken_ties.append({'tie': tie, 'label': label, 'text': text})
+            verdict = 'model'
     flat_ops = []
     for op in ops:
         flat_ops.append(op)
